@@ -213,6 +213,40 @@ func (a *absEval) charEq(r rune) Tri {
 	return U
 }
 
+// isCurByte: json[i:][0] or json[i] with i the loop position at the start of the iteration.
+func (m *Machine) isCurByte(t Term) bool {
+	ix, ok := t.(TIndex)
+	if !ok {
+		return false
+	}
+	if cv, ok := ix.X.(TConv); ok { // []byte(json)[i]
+		ix.X = cv.X
+	}
+	if sl, ok := ix.X.(TSlice); ok {
+		k, isK := constInt(ix.I)
+		return isK && k == 0 && isParamTerm(sl.X, m.jsonV) && m.loopVar(sl.Lo, m.idxV) && sl.Hi == nil
+	}
+	return isParamTerm(ix.X, m.jsonV) && m.loopVar(ix.I, m.idxV)
+}
+
+// byteEq: does the first byte of the current rune's encoding equal r?
+func (a *absEval) byteEq(r rune) (Tri, bool) {
+	c := a.class
+	switch c.Name {
+	case "BADUTF8", "EMPTY", "OTHER":
+		return U, c.Name != "EMPTY" // with no input left the index would panic: not decided here
+	case "FFFD":
+		if r == 0xEF {
+			return T, true
+		}
+		return F, true
+	}
+	if r >= 0x80 {
+		return F, true
+	}
+	return a.charEq(r), true
+}
+
 func (a *absEval) sizeCmp(op token.Token, k int64) Tri {
 	anyT, anyF := false, false
 	for _, s := range a.class.Size {
@@ -310,6 +344,18 @@ func (a *absEval) atom(t Term) (Tri, bool) {
 						v = triNot(v)
 					}
 					return v, true
+				}
+			}
+			// first byte of the rune being decoded: json[i:][0] or json[i] — for a one-byte class the byte is the rune
+			if m.isCurByte(l) {
+				if rr, ok := runeOf(r); ok && (op == token.EQL || op == token.NEQ) {
+					v, known := a.byteEq(rr)
+					if known {
+						if op == token.NEQ {
+							v = triNot(v)
+						}
+						return v, true
+					}
 				}
 			}
 			// size OP k
